@@ -20,7 +20,7 @@ func init() {
 		Run:       runC12,
 		Technique: "static analysis: abstract interpretation of the heap.Interface methods (symbolic slots and index fields), guard dominance, origin analysis of the invoked callback, must-lockset dataflow and who-may-write census on go/ssa of timeout/timeout.go",
 		Explanation: "R1: after Swap(i,j) the element in slot i has index i and the one in slot j has index j; Push gives the pushed element the length before the append (also when written as the length after it minus one: length arithmetic over the one append); Pop marks the returned element with a negative index (abstract interpretation with symbolic slots; the queue is the heap object itself or a slice field of it; the methods may have pointer or value receivers). " +
-			"R2: Cancel (the function that calls heap.Remove: the future's method or the one it forwards to) removes by index only on the 'still queued' edge (idx>=0, or idx != m when m is the one negative constant every store outside Swap/Push writes into the index), known directly or through a flag, under the lock; the removed index is that field of the tested future, read at the call or handed over together with the flag (idx, ok: every alternative possible under the flag). " +
+			"R2: Cancel (the function that calls heap.Remove: the future's method or the one it forwards to) removes by index only on the 'still queued' edge (idx>=0, or idx != m when m is the one negative constant every store outside Swap/Push writes into the index), known directly, through a flag or through the outcome of a read-only predicate of the package (idx>=0 at every exit of it that can give that outcome), under the lock; the removed index is that field of the tested future, read at the call or handed over together with the flag (idx, ok: every alternative possible under the flag). " +
 			"R3: every heap.Pop in the worker or a helper it calls is dominated by the true edge of now.After(t) / t.Before(now) with t the fire time of element 0 of the heap (every alternative possible under the guards) and now=time.Now() (in a helper: at every call of it), all in one critical section. " +
 			"R4: the callback field is invoked only in the worker, and every origin of the invoked value is nil or the callback of the future just returned by heap.Pop - directly or by a helper all of whose results are nil or such a future (a value carried over an iteration is provably nil). " +
 			"R5: Call stores time.Now().Add(d) into the fire-time field before queueing. " +
@@ -41,7 +41,7 @@ func init() {
 			"R4: the wake-up send is a select with default (never blocks) on a channel created with capacity >= 1 (a token is not lost while the worker is between unlock and select). " +
 			"R5: Less(i,j) is elem[i].fireTime.Before(elem[j].fireTime) (or elem[j].fireTime.After(elem[i].fireTime)). " +
 			"R7: the worker that consumed a wake-up token cannot retire before it has slept (with a recomputed timeout) or popped again - decided with path-sensitive constant propagation of the idle-round counter. " +
-			"R6: the worker re-reads the heap under the lock after every wake-up or timer expiry (no path from the select back to the select without Lock), and sleeps/blocks only with the lock released. R8: a re-used timer is drained when Stop reports it fired. In R6-R8 the select/timer code may stand in a function literal of the worker that runs only as a plain call of the worker (never stored, passed, deferred or started with go): its select is decided where it stands, entered with what holds at every call; a call of a literal that cannot return without having slept counts as sleeping; what the literal returns on its woken paths is carried to the code behind the call. R9: a worker deregisters only when the heap is empty or another worker remains (the guard known directly, or through a flag computed under it on every way the flag can be set). R10: the worker (its body, the functions it reaches through plain calls, function literals run as plain calls) waits only with a time bound: a blocking select has a case receiving from a timer, a receive outside a select is a receive from a timer - a bare receive from another channel (the wake channel under a 'a token is there' test) blocks for good once another worker took the token, and the blocked worker is still counted, so the others retire around it and a pending future is not started. Q1-Q7: the heap index / cancel rules of C12 (a future removed by mistake never fires).",
+			"R6: the worker re-reads the heap under the lock after every wake-up or timer expiry (no path from the select back to the select without Lock), and sleeps/blocks only with the lock released. R8: a re-used timer is drained when Stop reports it fired. In R6-R8 the select/timer code may stand in a function literal of the worker that runs only as a plain call of the worker (never stored, passed, deferred or started with go): its select is decided where it stands, entered with what holds at every call; a call of a literal that cannot return without having slept counts as sleeping; what the literal returns on its woken paths is carried to the code behind the call. R9: a worker deregisters only when the heap is empty or another worker remains (the guard known directly, or through a flag computed under it on every way the flag can be set). R10: the worker (its body, the functions it reaches through plain calls, function literals run as plain calls) waits only with a time bound: a blocking select has a case receiving from a timer, a receive outside a select is a receive from a timer - a bare receive from another channel (the wake channel under a 'a token is there' test) blocks for good once another worker took the token, and the blocked worker is still counted, so the others retire around it and a pending future is not started. Q1-Q7: the heap index / cancel rules of C12 (a future removed by mistake never fires). R12: the cancel routine returns without heap.Remove only over an edge that tells the future is not queued: idx<0, or - relying on the index invariant Q1 decides - idx>=len(queue) or queue[idx] is another future; known directly, through a flag, or as the outcome of a read-only predicate all of whose exits with that outcome are under one of these tests.",
 		NotDecided: "lateness bounds, wind-down time, behaviour under stale wake-up tokens.",
 	})
 }
@@ -1036,6 +1036,8 @@ func timerRules(c *Ctx, pfx string) {
 				k, isC := ir.ConstInt(y)
 				return isC && r.meansQueued(op, k)
 			})
+			// the test written as a predicate of the package: idx >= 0 at every exit of it that gives the outcome (v_timer.go)
+			guarded = guarded || (isIdx && r.tmQueuedThroughOutcome(call.Block(), base))
 			c.Decide(pfx+"2", fn, "heap.Remove guarded by idx>=0", call, guarded, "Cancel removes by index without the 'still queued' test: cancelling a fired or already cancelled future removes another future")
 			c.Decide(pfx+"2", fn, "heap.Remove under the lock", call, r.mutexHeld(ls, in), "Cancel removes from the heap without holding the lock")
 		})
@@ -1637,7 +1639,7 @@ func timerLiveRules(c *Ctx, pfx string) {
 	// its deadline once it is the head: the pool does not wind down although nothing is pending.
 	{
 		fn := r.cancel
-		notQueuedEdge := func(from, to *ssa.BasicBlock) bool {
+		negativeIdxEdge := func(from, to *ssa.BasicBlock) bool {
 			ef := ir.EdgeFact(from, to)
 			if ef == nil {
 				return false
@@ -1667,6 +1669,11 @@ func timerLiveRules(c *Ctx, pfx string) {
 				return k <= -1
 			}
 			return false
+		}
+		// "not queued" is also known from idx >= len(queue) and queue[idx] != fu - given the index invariant R1 decides - and
+		// through a flag or the outcome of a read-only predicate of the package (v_timer.go)
+		notQueuedEdge := func(from, to *ssa.BasicBlock) bool {
+			return negativeIdxEdge(from, to) || r.tmNotQueuedEdge(fn, from, to)
 		}
 		isRemove := func(in ssa.Instruction) bool { return heapCall(in, "Remove") != nil }
 		c.NoPath(pfx+"12", "a queued future is removed from the heap", nil, ir.Query{Fn: fn, Block: isRemove, BlockEdge: notQueuedEdge, Target: ir.IsExit},
